@@ -6,47 +6,45 @@ open Acra.Py Acra.Model.NPD Acra.Gen.NPD Acra.Lemmas.NPD
 theorem pack_nonrs232 (g : Seg) (hk : g.kind ≠ .rs232) : Seg.pack g = (g, g.packBase) := by
   cases hkk : g.kind <;> simp_all [Seg.pack]
 
-/- Full statement (FALSE of the faithful model, hence of the code):
-     Seg.eq l r = true → (Seg.pack l).2 = (Seg.pack r).2
-   `NPDSegment.__eq__` is inherited by the ACQ / A429 / PCM-packetizer / 1553 segment classes and accepts a
-   segment of ANY class, comparing the cached payload; an RS232Segment encodes from block status, sync bytes
-   and data instead.  So an ACQ (…) segment can compare equal to an RS-232 segment that encodes differently. -/
-theorem Segment_eq_sound_partial (l r : Seg) (h : Seg.eq l r = true)
-    (hcls : r.kind = .rs232 → l.kind = .rs232) : (Seg.pack l).2 = (Seg.pack r).2 := by
+/-- segments that compare equal are of the same class (`type(other) is type(self)`) -/
+theorem Segment_eq_kind (l r : Seg) (h : Seg.eq l r = true) : l.kind = r.kind := by
+  simp only [Seg.eq] at h
+  split at h <;> simp_all
+
+/-- two segments that compare equal encode to the same bytes (any pair of segment classes) -/
+theorem Segment_eq_sound (l r : Seg) (h : Seg.eq l r = true) : (Seg.pack l).2 = (Seg.pack r).2 := by
+  have hk := Segment_eq_kind l r h
   by_cases hl : l.kind = .rs232
-  · by_cases hr : r.kind = .rs232
-    · simp only [Seg.eq, hl, hr, Seg.eqRS232, Bool.and_eq_true, beq_iff_eq] at h
-      obtain ⟨⟨⟨⟨⟨⟨h1, h2⟩, h3⟩, h4⟩, h5⟩, h6⟩, h7⟩ := h
-      simp only [Seg.pack, hl, hr, Seg.packRS232, h5, h6, h7]
-      cases hs : structPack RS232Segment_pack_fmt0 [(r.block_status &&& 0xFFF8) + r.sync_bytes.length] with
+  · have hr : r.kind = .rs232 := hk ▸ hl
+    have h' : Seg.eqRS232 l r = true := by
+      simp only [Seg.eq, hk, if_true, hr] at h
+      exact h
+    simp only [Seg.eqRS232, Bool.and_eq_true, beq_iff_eq] at h'
+    obtain ⟨⟨⟨⟨⟨⟨h1, h2⟩, h3⟩, h4⟩, h5⟩, h6⟩, h7⟩ := h'
+    simp only [Seg.pack, hl, hr, Seg.packRS232, h5, h6, h7]
+    cases hs : structPack RS232Segment_pack_fmt0 [(r.block_status &&& 0xFFF8) + r.sync_bytes.length] with
+    | error e => rfl
+    | ok hb =>
+      cases hy : packSync r.sync_bytes with
       | error e => rfl
-      | ok hb =>
-        cases hy : packSync r.sync_bytes with
-        | error e => rfl
-        | ok sb =>
-          simp only [Seg.packBase, Seg.setPayload, h1, h3, h4]
-          try rfl
-    · simp only [Seg.eq, hl] at h
-      cases hrk : r.kind <;> simp_all
-  · have hr : r.kind ≠ .rs232 := fun hr => hl (hcls hr)
+      | ok sb =>
+        simp only [Seg.packBase, Seg.setPayload, h1, h3, h4]
+        try rfl
+  · have hr : r.kind ≠ .rs232 := fun hr => hl (hk ▸ hr)
     have he : Seg.eqBase l r = true := by
-      simp only [Seg.eq] at h
-      cases hlk : l.kind <;> cases hrk : r.kind <;> simp_all
+      simp only [Seg.eq, hk, if_true] at h
+      cases hrk : r.kind <;> simp_all
     simp only [Seg.eqBase, Bool.and_eq_true, beq_iff_eq] at he
     obtain ⟨⟨⟨⟨h1, h2⟩, h3⟩, h4⟩, h5⟩ := he
     rw [pack_nonrs232 l hl, pack_nonrs232 r hr]
     simp only [Seg.packBase, h1, h2, h3, h4, h5]
 
-/-- witness that the full statement fails: an ACQ segment and an RS-232 segment that has never been
-    packed (empty cached payload) compare equal, and encode differently -/
-example : Seg.eq (Seg.fresh .acq) { Seg.fresh .rs232 with data := [1] } = true ∧
-    (match (Seg.pack (Seg.fresh .acq)).2, (Seg.pack { Seg.fresh .rs232 with data := [1] }).2 with
-     | .ok a, .ok b => a != b
-     | _, _ => false) = true := by decide
+/-- the counterexample that existed before the `fix:` commit (an ACQ segment comparing equal to a
+    never-packed RS-232 segment) is now unequal -/
+example : Seg.eq (Seg.fresh .acq) { Seg.fresh .rs232 with data := [1] } = false := by decide
 
 /-- the bytes a segment list packs to depend only on what each segment packs to -/
-theorem packSegs_snd_congr (ls rs : List Seg) (h : segsEq ls rs = true)
-    (hcls : ∀ r ∈ rs, r.kind = .rs232 → ∀ l ∈ ls, l.kind = .rs232) :
+theorem packSegs_snd_congr (ls rs : List Seg) (h : segsEq ls rs = true) :
     (packSegs ls).2 = (packSegs rs).2 := by
   induction ls generalizing rs with
   | nil => cases rs <;> simp_all [segsEq]
@@ -55,8 +53,8 @@ theorem packSegs_snd_congr (ls rs : List Seg) (h : segsEq ls rs = true)
     | nil => simp [segsEq] at h
     | cons b bs =>
       simp only [segsEq, Bool.and_eq_true] at h
-      have h1 := Segment_eq_sound_partial a b h.1 (fun hb => hcls b (by simp) hb a (by simp))
-      have h2 := ih bs h.2 (fun r hr hk l hl => hcls r (by simp [hr]) hk l (by simp [hl]))
+      have h1 := Segment_eq_sound a b h.1
+      have h2 := ih bs h.2
       simp only [packSegs]
       cases ha : a.pack with
       | mk a' ra =>
@@ -77,15 +75,11 @@ theorem packSegs_snd_congr (ls rs : List Seg) (h : segsEq ls rs = true)
                 subst h2
                 cases r1 <;> rfl
 
-/- Full statement (FALSE, see `Segment_eq_sound_partial`):  eq a b = true → (pack a).2 = (pack b).2 -/
-/-- two NPD objects that compare equal encode to the same bytes, provided an RS-232 segment is only
-    ever compared with RS-232 segments -/
-theorem NPD_eq_sound_partial (a b : State) (h : eq a b = true)
-    (hcls : ∀ r ∈ a.segments, r.kind = .rs232 → ∀ l ∈ b.segments, l.kind = .rs232) :
-    (pack a).2 = (pack b).2 := by
+/-- two NPD objects that compare equal encode to the same bytes -/
+theorem NPD_eq_sound (a b : State) (h : eq a b = true) : (pack a).2 = (pack b).2 := by
   simp only [eq, Bool.and_eq_true, beq_iff_eq] at h
   obtain ⟨⟨⟨⟨⟨⟨⟨⟨⟨⟨h1, h2⟩, h3⟩, h4⟩, h5⟩, h6⟩, h7⟩, h8⟩, h9⟩, h10⟩, h11⟩ := h
-  have hs := packSegs_snd_congr b.segments a.segments h11 hcls
+  have hs := packSegs_snd_congr b.segments a.segments h11
   simp only [pack, ← h1, ← h2, ← h3, ← h5, ← h6, ← h7, ← h8, ← h9, ← h10]
   cases b.mcastaddr with
   | none => rfl
@@ -106,10 +100,11 @@ theorem NPD_eq_sound_partial (a b : State) (h : eq a b = true)
           split <;> rfl
 
 /-- the object decoded from a's encoding compares equal to a as `pack` left it (data types whose segment
-    class is not RS232Segment; no RS-232 segments in the packet) -/
+    class is not RS232Segment; the segments are of the class the data type dictates — equality is
+    class-strict) -/
 theorem NPD_eq_decode (a t : State) (dt mc ts : Nat) (h : NPD_WF a dt mc ts)
     (hok : ∀ g ∈ a.segments, TypedOK (kindOf dt) g) (hk : kindOf dt ≠ .rs232)
-    (hseg : ∀ g ∈ a.segments, g.kind ≠ .rs232) :
+    (hseg : ∀ g ∈ a.segments, g.kind = kindOf dt) :
     ∃ b, (pack a).2 = .ok b ∧ (unpack t b).2 = .ok () ∧ eq (pack a).1 (unpack t b).1 = true := by
   obtain ⟨b, hp, hu, _⟩ := C01.NPD_roundtrip a t dt mc ts h hok (Or.inl hk)
   refine ⟨b, hp, by rw [hu], ?_⟩
@@ -122,7 +117,8 @@ theorem NPD_eq_decode (a t : State) (dt mc ts : Nat) (h : NPD_WF a dt mc ts)
     | cons g gs ih =>
       simp only [List.map_cons, segsEq, Bool.and_eq_true]
       refine ⟨?_, ih (fun x hx => h13 x (by simp [hx])) (fun x hx => hok x (by simp [hx])) (fun x hx => hseg x (by simp [hx]))⟩
-      have hgk := hseg g (by simp)
+      have hgk0 := hseg g (by simp)
+      have hgk : g.kind ≠ .rs232 := by rw [hgk0]; exact hk
       have hpk : packedSeg g = g := by cases hkk : g.kind <;> simp_all [packedSeg]
       have heff : effPayload g = g.payload := by cases hkk : g.kind <;> simp_all [effPayload]
       obtain ⟨_, _, _, _, _, h6⟩ := h13 g (by simp)
@@ -130,8 +126,7 @@ theorem NPD_eq_decode (a t : State) (dt mc ts : Nat) (h : NPD_WF a dt mc ts)
       obtain ⟨hb1, hb2, hb3, hb4, hb5, hb6⟩ := hb
       have hdk : (decodedSeg (kindOf dt) g).kind = kindOf dt := by simp only [decodedSeg]; rw [hb6]; rfl
       have he : Seg.eq (decodedSeg (kindOf dt) g) g = Seg.eqBase (decodedSeg (kindOf dt) g) g := by
-        simp only [Seg.eq, hdk]
-        cases hkd : kindOf dt <;> cases hkk : g.kind <;> simp_all
+        simp only [Seg.eq, hdk, hgk0, if_true]
       rw [hpk, he]
       simp only [Seg.eqBase, Bool.and_eq_true, beq_iff_eq, decodedSeg]
       rw [hb1, hb2, hb3, hb4, hb5]
